@@ -270,8 +270,8 @@ static int do_slist(int const *v, int n, FILE *fo)
 /* ------------------------------------------------------------------ a_que */
 static char const *qop[] = {"?", "push_back", "push_fore", "insert", "pull_back", "pull_fore", "remove", "at", "fore", "back",
                             "sort_fore", "sort_back", "push_sort", "swap_elems", "swap_queues", "drop", "setz", "walk"};
-static struct { int fwd[64], fwd2[64], rev[64], rev2[64], nf, nf2, nr, nr2, acc, num, siz; } qwalk;
-static void *addr_tab[64];
+static struct { int fwd[256], fwd2[256], rev[256], rev2[256], nf, nf2, nr, nr2, acc, num, siz; } qwalk;
+static void *addr_tab[1024];
 static int n_addr;
 static int aid(void *p)
 {
@@ -280,7 +280,7 @@ static int aid(void *p)
     {
         if (addr_tab[i] == p) { return i + 1; }
     }
-    if (n_addr < 64) { addr_tab[n_addr++] = p; }
+    if (n_addr < 1024) { addr_tab[n_addr++] = p; }
     return n_addr;
 }
 static void put_elem(a_byte *p, a_size siz, int v)
@@ -318,7 +318,7 @@ static void put_que(FILE *f, a_que *q, int with_bwd)
 {
     int cnt = 0;
     fputs("{\"fwd\":[", f);
-    for (a_list *it = q->head_.next; it != &q->head_ && cnt < 40; it = it->next, ++cnt)
+    for (a_list *it = q->head_.next; it != &q->head_ && cnt < 250; it = it->next, ++cnt)
     {
         fprintf(f, cnt ? ",[%d,%d]" : "[%d,%d]", aid(it), get_elem((a_byte *)(it + 1), q->siz_));
     }
@@ -327,14 +327,14 @@ static void put_que(FILE *f, a_que *q, int with_bwd)
     {
         cnt = 0;
         fputs(",\"bwd\":[", f);
-        for (a_list *it = q->head_.prev; it != &q->head_ && cnt < 40; it = it->prev, ++cnt)
+        for (a_list *it = q->head_.prev; it != &q->head_ && cnt < 250; it = it->prev, ++cnt)
         {
             fprintf(f, cnt ? ",[%d,%d]" : "[%d,%d]", aid(it), get_elem((a_byte *)(it + 1), q->siz_));
         }
         fputs("]", f);
     }
     fputs(",\"pool\":[", f);
-    for (a_size i = 0; i < q->cur_ && i < 40; ++i) { fprintf(f, i ? ",%d" : "%d", aid(q->ptr_[i])); }
+    for (a_size i = 0; i < q->cur_ && i < 250; ++i) { fprintf(f, i ? ",%d" : "%d", aid(q->ptr_[i])); }
     fprintf(f, "],\"num\":%d,\"siz\":%d}", (int)q->num_, (int)q->siz_);
 }
 static a_size to_size(int x)
@@ -349,7 +349,7 @@ static void put_vals(FILE *f, a_que *q)
 {
     int cnt = 0;
     fputc('[', f);
-    for (a_list *it = q->head_.next; it != &q->head_ && cnt < 40; it = it->next, ++cnt)
+    for (a_list *it = q->head_.next; it != &q->head_ && cnt < 250; it = it->next, ++cnt)
     {
         fprintf(f, cnt ? ",%d" : "%d", get_elem((a_byte *)(it + 1), q->siz_));
     }
@@ -496,8 +496,95 @@ static int do_que(int const *v, int n, FILE *fo)
     return 0;
 }
 
+/* long random histories on two live queues: every step logged with the state before and after, judged step by step by QueTrace */
+static uint64_t qrnd_s;
+static unsigned qrnd(void)
+{
+    qrnd_s ^= qrnd_s << 13; qrnd_s ^= qrnd_s >> 7; qrnd_s ^= qrnd_s << 17;
+    return (unsigned)(qrnd_s >> 24);
+}
+static int do_que_random(unsigned long seed, int nhist, int nops, char const *prefix, int nb)
+{
+    FILE *fos[64];
+    char name[512];
+    if (nb > 64) { nb = 64; }
+    for (int i = 0; i < nb; ++i)
+    {
+        snprintf(name, sizeof(name), "%s-%04d.ndjson", prefix, i);
+        fos[i] = fopen(name, "w");
+        if (!fos[i]) { perror(name); return 3; }
+    }
+    static int const ops[] = {1, 1, 1, 1, 1, 2, 2, 2, 3, 3, 3, 4, 5, 6, 7, 8, 9, 13, 13, 14, 17};
+    static int const sizes[] = {1, 3, 8};
+    qrnd_s = 0x9E3779B97F4A7C15ull ^ (seed * 1000003ull);
+    for (int h = 0; h < nhist; ++h)
+    {
+        a_que q[3];
+        a_que_ctor(&q[1], (a_size)sizes[qrnd() % 3]);
+        a_que_ctor(&q[2], (a_size)sizes[qrnd() % 3]);
+        for (int t = 0; t < nops; ++t)
+        {
+            int n = (int)q[1].num_, op = ops[qrnd() % (sizeof(ops) / sizeof(ops[0]))];
+            if (qrnd() % 80 == 0) { op = 15 + (int)(qrnd() % 2); } /* emptying operations are rare so that the queues grow long */
+            if (n + (int)q[2].num_ > 150 && op <= 3) { op = 4 + (int)(qrnd() % 3); }
+            int where = (int)(qrnd() % 8);
+            int a1 = where == 0 ? HUGE_M : where == 1 ? n + 1 : (n ? (int)(qrnd() % (unsigned)n) : 0), a2 = 10 * (int)(qrnd() % 10) + (int)(qrnd() % 10);
+            int z1 = (int)q[1].siz_;
+            if (op == 7) { a1 = (int)(qrnd() % (unsigned)(2 * n + 3)) - n - 1; }
+            if (op == 13) { if (n < 1) { op = 17; } else { a1 = (int)(qrnd() % (unsigned)n); a2 = (int)(qrnd() % (unsigned)n); } }
+            if (op == 16) { a1 = sizes[qrnd() % 3]; }
+            snprintf(cur_desc, sizeof(cur_desc), "\"kind\":\"que\",\"op\":\"%s\",\"a1\":%d,\"a2\":%d,\"n\":%d,\"random\":1", qop[op], a1, a2, n);
+            FILE *fo = fos[(n_events / 256) % nb];
+            n_addr = 0;
+            fprintf(fo, "{\"op\":\"%s\",\"a1\":%d,\"a2\":%d,\"pre\":{\"q1\":", qop[op], a1, a2);
+            put_que(fo, &q[1], 0);
+            fputs(",\"q2\":", fo);
+            put_que(fo, &q[2], 0);
+            fputs("}", fo);
+            void *p = NULL;
+            int rc = 0, rval = 0;
+            a_byte keyobj[64];
+            (void)keyobj; (void)z1;
+            f_begin(0, 0);
+#include "que_ops.inc"
+            f_end();
+            int rid = p ? aid((a_list *)p - 1) : 0;
+            if ((op == 1 || op == 2 || op == 3) && p) { put_elem((a_byte *)p, q[1].siz_, a2); }
+            if ((op >= 4 && op <= 9) && p) { rval = get_elem((a_byte *)p, q[1].siz_); }
+            fputs(",\"post\":{\"q1\":", fo);
+            put_que(fo, &q[1], 1);
+            fputs(",\"q2\":", fo);
+            put_que(fo, &q[2], 1);
+            fprintf(fo, "},\"ret\":%d,\"val\":%d,\"rc\":%d", rid, rval, rc);
+            if (op == 17)
+            {
+                fputs(",\"walk\":{\"fwd\":[", fo); for (int i = 0; i < qwalk.nf; ++i) { fprintf(fo, i ? ",%d" : "%d", qwalk.fwd[i]); }
+                fputs("],\"fwd2\":[", fo); for (int i = 0; i < qwalk.nf2; ++i) { fprintf(fo, i ? ",%d" : "%d", qwalk.fwd2[i]); }
+                fputs("],\"rev\":[", fo); for (int i = 0; i < qwalk.nr; ++i) { fprintf(fo, i ? ",%d" : "%d", qwalk.rev[i]); }
+                fputs("],\"rev2\":[", fo); for (int i = 0; i < qwalk.nr2; ++i) { fprintf(fo, i ? ",%d" : "%d", qwalk.rev2[i]); }
+                fprintf(fo, "],\"acc\":%d,\"num\":%d,\"siz\":%d}", qwalk.acc, qwalk.num, qwalk.siz);
+            }
+            fputs("}\n", fo);
+            ++n_events;
+            ++n_edges;
+        }
+        a_que_dtor(&q[1], NULL);
+        a_que_dtor(&q[2], NULL);
+    }
+    for (int i = 0; i < nb; ++i) { fclose(fos[i]); }
+    printf("SUMMARY {\"edges\":%ld,\"events\":%ld}\n", n_edges, n_events);
+    return 0;
+}
+
 int main(int argc, char **argv)
 {
+    if (argc >= 7 && !strcmp(argv[1], "random"))
+    {
+        __sanitizer_set_death_callback(on_death);
+        signal(SIGABRT, on_abort);
+        f_install();
+        return do_que_random(strtoul(argv[2], 0, 10), atoi(argv[3]), atoi(argv[4]), argv[5], atoi(argv[6]));
+    }
     if (argc < 5 || strcmp(argv[1], "edges"))
     {
         fprintf(stderr, "usage: %s edges <tlc-output> <out-prefix> <batches> [skip]\n", argv[0]);
